@@ -237,6 +237,9 @@ FAMILIES = {
     "tuples_same": (_T[int], _T[int, int], _T[int, int, int], _T[int, int, int, int], _T[int, int, int, int, int], _T[int, int, int, int, int, int]),
     # dict unions (RewriteConfigDict) mixed with empty containers (RemoveEmptyContainers)
     "dicts": (_D[str, int], _D[str, str], _D[str, K.A], _D[MT.Any, MT.Any], _D[str, _L[int]], _D[str, type(None)]),
+    # multiple inheritance mixed with single inheritance: Arc/Box(Measured, Drawable) next to four Drawable-only classes
+    "mi_mixed": (K.Arc, K.Box, K.Dot, K.Line, K.Poly, K.Ring),
+    "mi_mixed2": (K.Dot, K.Arc, K.Line, K.Box, K.Poly, K.Ring),
     # plain classes with a common base plus unrelated ones
     "classes": (K.A, K.B, K.C, K.D, K.E, int, type(None)),
 }
